@@ -296,6 +296,13 @@ func (ex *Exec) merge(states []*State, conds []string) *State {
 		ok := true
 		for _, s := range states {
 			v, has := s.ghost[k]
+			if !has && strings.HasPrefix(k, "called:") {
+				v, has = "false", true
+			}
+			if !has && (strings.HasPrefix(k, "callres:") || strings.HasPrefix(k, "callarg:")) {
+				// no call on this path: any value
+				v, has = ex.q.fresh("nocall", Sort(k[strings.LastIndex(k, "|")+1:])), true
+			}
 			if !has {
 				ok = false
 				break
@@ -309,7 +316,11 @@ func (ex *Exec) merge(states []*State, conds []string) *State {
 		for i := len(ts) - 2; i >= 0; i-- {
 			t = ite(conds[i], ts[i], t)
 		}
-		out.ghost[k] = ex.q.def("g", SBool, t)
+		srt := SBool
+		if i := strings.LastIndex(k, "|"); i >= 0 {
+			srt = Sort(k[i+1:])
+		}
+		out.ghost[k] = ex.q.def("g", srt, t)
 	}
 	return out
 }
